@@ -11,6 +11,7 @@ import (
 	"github.com/evolbioinfo/gotree/io/nexus"
 	"github.com/evolbioinfo/gotree/io/phyloxml"
 	"github.com/evolbioinfo/gotree/tree"
+	"github.com/evolbioinfo/gotree/verifhook"
 )
 
 const (
@@ -123,6 +124,7 @@ func ReadMultiTrees(reader *bufio.Reader, format int) <-chan tree.Trees {
 					}
 					break
 				} else {
+					verifhook.Point("readmultitrees.send", 0, id)
 					compTrees <- tree.Trees{
 						Tree: compTree,
 						Id:   id,
